@@ -348,7 +348,27 @@ func (h *handler) processUnaryRpc(
 ) *goatorepo.Rpc {
 	ctx, cancel, err := contextFromHeaders(clientCtx, rpc.GetHeader())
 	if err != nil {
-		log.Panic().Err(err).Msg("Server: failed to get context from headers")
+		// Undecodable request metadata comes from the peer: answer with an
+		// error status (streams answer with a reset) instead of panicking.
+		cancel()
+		log.Warn().Err(err).Msg("Server: failed to get context from headers")
+		respHeader := &goatorepo.RequestHeader{
+			Method:      fmt.Sprintf("/%s/%s", info.name, md.MethodName),
+			Source:      rpc.Header.Destination,
+			Destination: rpc.Header.Source,
+		}
+		if len(rpc.Header.ProxyRecord) > 1 {
+			respHeader.ProxyNext = rpc.Header.ProxyRecord[0 : len(rpc.Header.ProxyRecord)-1]
+		}
+		return &goatorepo.Rpc{
+			Id:     rpc.GetId(),
+			Header: respHeader,
+			Status: &goatorepo.ResponseStatus{
+				Code:    int32(codes.Internal),
+				Message: "invalid request metadata: " + err.Error(),
+			},
+			Trailer: &goatorepo.Trailer{},
+		}
 	}
 	defer cancel()
 	// The handler's context must end with the connection (read/write failure,
